@@ -154,6 +154,10 @@ def DOCS():
     d['pkg_then_cls_lang'] = ('ru-RU', '\\documentclass[english]{article}\\usepackage[german,russian]'
                               '{babel}\n', seq(W('Ж ж '), FL('english', W('one')), W(' ж.')), 1)
     d['main_opt_only'] = ('ru-RU', '', seq(W('Ж ж '), FL('german', W('eins zwei')), W(' ж.')), 2)
+    d['nested_same'] = ('en-GB', '', seq(W('A '), ENV('german', seq(W(' B '), FL('german', W('C')),
+                                                                   W(' D '))), W(' E.')), None)
+    d['nested_same_fl'] = ('en-GB', '', seq(W('A b '), FL('german', seq(W('eins '), FL('german',
+                                            W('zwei')), W(' drei vier fünf'))), W(' c d.')), None)
     d['same_lang'] = ('en-GB', '', seq(W('A b '), FL('english', W('c d')), W(' e.')), None)
     d['math_inside'] = ('en-GB', '', seq(W('A b '), FL('german', seq(W('eins '), RAW('$x$'), W(' zwei'))),
                                          W(' c.')), None)
